@@ -22,7 +22,7 @@ struct FloatStage {            // what the wrappers saw in one float stage (for 
 	int kind = 0;              // 0 dbl, 1 mpf
 	unsigned prec = 0;
 	int real_rv = 0, real_status = 0, told_status = 0;
-	bool warm = false;
+	bool warm = false; bool cut = false;   // cut: the stage ran out of simulated time before it started (knob ladder.cut)
 	std::vector<std::string> faults;
 };
 
@@ -34,6 +34,7 @@ struct World {
 	long limit_at_read = -1;          // clk.limit: at this read (within the op) the clock jumps
 	double jump = 0;
 	int clk_fired = 0;
+	int ladder_cut = 0, ladder_cut_fired = 0, ladder_cut_in_op = 0;   // knob ladder.cut: mpf stages above this precision meet an exhausted time budget
 	// ---- disk
 	std::map<std::string, std::string> files;
 	std::map<std::string, FileFaults> ffaults;
